@@ -17,7 +17,15 @@
 //! certificate_status_fetch is on; a TSA request only if the signer has a TSA URL and the operation signs. Reading a
 //! remote-only asset with fetching disabled must give Err(RemoteManifestUrl(u)) with u equal to the embedded URL.
 //!
+//! The sign operation is additionally crossed (OCSP settings at their defaults) with extra ingredient {none, unsigned,
+//! signed without a time stamp} x intent {Edit, Create, Update} x signer TSA {none, set} x auto_timestamp_assertion
+//! {default, enabled} x Builder::add_timestamp {not called, called}: a time-stamp request on the installed resolver (those are
+//! the ingredient TimeStamp-assertion requests; the signer's own COSE time stamp goes to the loopback listener) is asked for
+//! only when the signer has a TSA URL AND (auto_timestamp_assertion.enabled OR add_timestamp was called).
+//!
 //! Mutants caught (tools/mutant_run.sh D <patch> C28 quick):
+//!   C28-timestamp-gate-removed.diff (independently seeded: maybe_add_timestamp ignores auto_timestamp_assertion.enabled; missed
+//!                                    while every resolver-side TSA request was accepted whenever the signer had a TSA URL)
 //!   C28-invert-remote-fetch.diff   (the remote_manifest_fetch test inverted)
 //!   C28-ocsp-always-fetch.diff     (OCSP fetch policy ignores verify.ocsp_fetch)
 
@@ -173,15 +181,23 @@ struct Case {
     rmf: bool,
     ocsp: bool,
     csf: Option<&'static str>,
-    auto_ts: bool,
+    /// builder.auto_timestamp_assertion.enabled: "off" (explicit false) | "default" (key absent) | "on"
+    auto_ts: &'static str,
     tsa: bool,
     is_async: bool,
+    /// sign only: extra ingredient added with add_ingredient_from_stream: "none" | "unsigned" | "signed" (embedded seed, no time stamp)
+    ing: &'static str,
+    /// sign only: "edit" (parent from the source stream) | "create" | "update"
+    intent: &'static str,
+    /// sign only: Builder::add_timestamp called with the labels of the manifests involved
+    add_ts: bool,
 }
 
 impl Case {
     fn to_json(&self) -> Value {
         json!({"fmt": self.fmt, "op": self.op, "asset": self.asset, "cert": self.cert, "remote_manifest_fetch": self.rmf, "ocsp_fetch": self.ocsp,
-               "certificate_status_fetch": self.csf, "auto_timestamp": self.auto_ts, "signer_tsa": self.tsa, "async": self.is_async})
+               "certificate_status_fetch": self.csf, "auto_timestamp": self.auto_ts, "signer_tsa": self.tsa, "async": self.is_async,
+               "ingredient": self.ing, "intent": self.intent, "add_timestamp": self.add_ts})
     }
     fn from_json(v: &Value) -> Case {
         let st = |k: &str, opts: &[&'static str]| -> &'static str { opts.iter().copied().find(|o| Some(*o) == v[k].as_str()).unwrap_or_else(|| kit::ev::machinery(format!("replay: bad {k}"))) };
@@ -193,13 +209,21 @@ impl Case {
             rmf: v["remote_manifest_fetch"].as_bool().unwrap_or(false),
             ocsp: v["ocsp_fetch"].as_bool().unwrap_or(false),
             csf: ["active", "all"].iter().copied().find(|o| Some(*o) == v["certificate_status_fetch"].as_str()),
-            auto_ts: v["auto_timestamp"].as_bool().unwrap_or(false),
+            auto_ts: ["off", "default", "on"].iter().copied().find(|o| Some(*o) == v["auto_timestamp"].as_str()).unwrap_or(if v["auto_timestamp"].as_bool() == Some(true) { "on" } else { "off" }),
             tsa: v["signer_tsa"].as_bool().unwrap_or(false),
             is_async: v["async"].as_bool().unwrap_or(false),
+            ing: ["none", "unsigned", "signed"].iter().copied().find(|o| Some(*o) == v["ingredient"].as_str()).unwrap_or("none"),
+            intent: ["edit", "create", "update"].iter().copied().find(|o| Some(*o) == v["intent"].as_str()).unwrap_or("edit"),
+            add_ts: v["add_timestamp"].as_bool().unwrap_or(false),
         }
     }
     fn settings(&self) -> String {
-        let mut b = json!({"thumbnail": {"enabled": false}, "auto_timestamp_assertion": {"enabled": self.auto_ts}});
+        let mut b = json!({"thumbnail": {"enabled": false}});
+        match self.auto_ts {
+            "on" => b["auto_timestamp_assertion"] = json!({"enabled": true}),
+            "off" => b["auto_timestamp_assertion"] = json!({"enabled": false}),
+            _ => {} // default: key absent
+        }
         if let Some(s) = self.csf {
             b["certificate_status_fetch"] = json!(s);
             b["certificate_status_should_override"] = json!(false);
@@ -217,12 +241,27 @@ fn all_cases(fmts: &[&'static str]) -> Vec<Case> {
             for rmf in bools {
                 for ocsp in bools {
                     for is_async in bools {
-                        v.push(Case { fmt, op: "read", asset, cert, rmf, ocsp, csf: None, auto_ts: false, tsa: false, is_async });
+                        v.push(Case { fmt, op: "read", asset, cert, rmf, ocsp, csf: None, auto_ts: "off", tsa: false, is_async, ing: "none", intent: "edit", add_ts: false });
                         for csf in [None, Some("active"), Some("all")] {
-                            v.push(Case { fmt, op: "ingredient", asset, cert, rmf, ocsp, csf, auto_ts: false, tsa: false, is_async });
-                            for auto_ts in bools {
+                            v.push(Case { fmt, op: "ingredient", asset, cert, rmf, ocsp, csf, auto_ts: "off", tsa: false, is_async, ing: "none", intent: "edit", add_ts: false });
+                            for auto_ts in ["off", "on"] {
                                 for tsa in bools {
-                                    v.push(Case { fmt, op: "sign", asset, cert, rmf, ocsp, csf, auto_ts, tsa, is_async });
+                                    v.push(Case { fmt, op: "sign", asset, cert, rmf, ocsp, csf, auto_ts, tsa, is_async, ing: "none", intent: "edit", add_ts: false });
+                                }
+                            }
+                        }
+                        // time-stamp product of the sign operation (OCSP settings at their defaults):
+                        // ingredient kind x intent x signer TSA x auto_timestamp {default, enabled} x add_timestamp()
+                        if !ocsp {
+                            for ing in ["none", "unsigned", "signed"] {
+                                for intent in ["edit", "create", "update"] {
+                                    for auto_ts in ["default", "on"] {
+                                        for tsa in bools {
+                                            for add_ts in bools {
+                                                v.push(Case { fmt, op: "sign", asset, cert, rmf, ocsp, csf: None, auto_ts, tsa, is_async, ing, intent, add_ts });
+                                            }
+                                        }
+                                    }
                                 }
                             }
                         }
@@ -243,6 +282,8 @@ struct World {
     manifests: Vec<(String, Vec<u8>)>,
     tsa_url: String,
     listener: Option<Listener>,
+    /// active manifest label of every seed
+    labels: Vec<((&'static str, &'static str, &'static str), String)>,
 }
 
 fn mime_of(fmt: &str) -> &'static str {
@@ -291,7 +332,22 @@ fn build_world(fmts: &[&'static str]) -> World {
     }
     let listener = start_listener();
     let tsa_url = listener.as_ref().map(|l| l.url.clone()).unwrap_or_else(|| "http://127.0.0.1:1/tsa".to_string());
-    World { creds, assets: assets_v, manifests, tsa_url, listener }
+    let mut labels = vec![];
+    for ((fmt, cert, asset), bytes) in &assets_v {
+        let rd = if *asset == "remote-only" {
+            let url = manifest_url(fmt, cert, asset);
+            let m = &manifests.iter().find(|(u, _)| *u == url).unwrap_or_else(|| kit::ev::machinery("C28: sidecar missing")).1;
+            Reader::from_context(offline_ctx()).with_manifest_data_and_stream(m, mime_of(fmt), Cursor::new(bytes.clone()))
+        } else {
+            sdk::read(offline_ctx(), mime_of(fmt), bytes)
+        };
+        if let Ok(rd) = rd {
+            if let Some(l) = rd.active_label() {
+                labels.push(((*fmt, *cert, *asset), l.to_string()));
+            }
+        }
+    }
+    World { creds, assets: assets_v, manifests, tsa_url, listener, labels }
 }
 
 #[derive(Debug)]
@@ -344,7 +400,31 @@ fn execute(w: &World, c: &Case) -> Obs {
             }
             _ => {
                 let mut b = Builder::from_context(ctx).with_definition(DEF)?;
-                b.set_intent(BuilderIntent::Edit);
+                b.set_intent(match c.intent {
+                    "create" => BuilderIntent::Create(c2pa::DigitalSourceType::DigitalCapture),
+                    "update" => BuilderIntent::Update,
+                    _ => BuilderIntent::Edit,
+                });
+                if c.ing != "none" {
+                    let idata: Vec<u8> = if c.ing == "signed" {
+                        w.assets.iter().find(|(k, _)| *k == (c.fmt, c.cert, "embedded")).unwrap_or_else(|| kit::ev::machinery("C28: embedded seed missing")).1.clone()
+                    } else {
+                        assets::by_name(c.fmt).data
+                    };
+                    let ij = r#"{"title":"extra","relationship":"componentOf"}"#;
+                    if c.is_async {
+                        net::block_on(b.add_ingredient_from_stream_async(ij, mime, &mut Cursor::new(idata)))?;
+                    } else {
+                        b.add_ingredient_from_stream(ij, mime, &mut Cursor::new(idata))?;
+                    }
+                }
+                if c.add_ts {
+                    for ((f, ce, a), l) in &w.labels {
+                        if *f == c.fmt && *ce == c.cert && (*a == c.asset || *a == "embedded") {
+                            b.add_timestamp(l.clone());
+                        }
+                    }
+                }
                 let signer = w.creds.signer(c.cert, tsa.clone());
                 let mut dst = Cursor::new(Vec::new());
                 if c.is_async {
@@ -374,7 +454,10 @@ fn allowed(w: &World, c: &Case, method: &str, uri: &str) -> Result<&'static str,
         return if c.ocsp || c.csf.is_some() { Ok("ocsp") } else { Err("ocsp") };
     }
     if uri == w.tsa_url {
-        return if c.tsa && c.op == "sign" { Ok("tsa") } else { Err("tsa") };
+        // The recording resolver only sees time-stamp requests for INGREDIENT manifests (TimeStamp assertion): the signer's
+        // own COSE time stamp travels over its private transport to the loopback listener. They are asked for only by
+        // builder.auto_timestamp_assertion.enabled or Builder::add_timestamp, and need a signer TSA URL.
+        return if c.tsa && c.op == "sign" && (c.auto_ts == "on" || c.add_ts) { Ok("tsa-ingredient-assertion") } else { Err("tsa-ingredient-assertion") };
     }
     let _ = method;
     Err("other")
@@ -501,7 +584,7 @@ pub fn run(run: &Run, replay: Option<&Value>) {
     if quiet && g.get("ocsp").copied().unwrap_or(0) == 0 {
         kit::ev::machinery("C28: no OCSP request was ever observed: the ocsp dimensions are vacuous");
     }
-    if quiet && g.get("tsa").copied().unwrap_or(0) == 0 && tsa_hits == 0 {
+    if quiet && (g.get("tsa-ingredient-assertion").copied().unwrap_or(0) == 0 || tsa_hits == 0) {
         kit::ev::machinery("C28: no time-stamp request was ever observed: the TSA dimension is vacuous");
     }
     // the listener is only known to cases with a signer TSA; anything it saw is asked for by construction
